@@ -41,15 +41,23 @@ Fixpoint xtree_eqb (a b : xtree) : bool :=
 
 (** ** The statement language (mirror of the Python subset that [__exit__] may use) *)
 Inductive xval := VNone | VTrue | VFalse | VTemp | VTName | VDest | VExc.
-Inductive xexpr := EC (v : xval) | EV (x : nat).
+(** [ENameOf e]: the path of the open file [e] ([Path(e.name)], [e.name]); used by the entry prologue of
+    [make_tempfile], which removes a temp file it still holds open. *)
+Inductive xexpr := EC (v : xval) | EV (x : nat) | ENameOf (e : xexpr).
 Inductive xtest :=
 | TIs (a b : xexpr) | TIsNot (a b : xexpr) | TTruth (e : xexpr)
 | TNot (t : xtest) | TAnd (a b : xtest) | TOr (a b : xtest).
 Inductive xmeth := MClose | MReplace | MUnlink.
-(** Exception classes a handler may name: everything (bare / BaseException / Exception), OSError and its aliases,
-    FileNotFoundError, and classes that catch none of the exceptions that can be in flight here. *)
-Inductive xclass := KAll | KOSError | KNoEnt | KNever.
-(** Exceptions that can be in flight inside [__exit__]: an OSError other than FileNotFoundError (the injected fault),
+(** Exception classes a handler may name: everything (bare / BaseException), [Exception], OSError and its aliases,
+    FileNotFoundError, a named subclass of OSError other than FileNotFoundError ([KSub c]: PermissionError,
+    FileExistsError, ... numbered by the translator), and classes that catch none of the exceptions that can be in
+    flight here.  [KFault] / [KExcNoFault] are not written by the translator: they are what SM/AtomicRetry.v
+    specialises a handler class to when the refused operations of a run raise one particular class ([KFault]:
+    exactly the exception of a refused operation; [KExcNoFault]: [Exception] when a refused operation raises
+    something that is no [Exception], e.g. KeyboardInterrupt). *)
+Inductive xclass := KAll | KOSError | KNoEnt | KNever | KExc | KSub (c : nat) | KFault | KExcNoFault.
+(** Exceptions that can be in flight inside [__exit__]: the exception of a refused operation ([XOSErr]: an OSError
+    that is neither FileNotFoundError nor, in the unspecialised program, one of the named subclasses),
     FileNotFoundError (temp file gone), anything else (AttributeError on None, an explicit raise). *)
 Inductive xexc := XOSErr | XNoEntErr | XOther.
 
@@ -62,15 +70,23 @@ Inductive xstmt :=
 | STry (body : xstmt) (hs : xhandlers) (orelse fin : xstmt)
 | SReturn (truthy : bool)               (* [return <truthy value>] would swallow the body's exception *)
 | SRaise (bare : bool)                  (* bare [raise] re-raises the handled exception *)
+| SFor (n : nat) (body orelse : xstmt)  (* [for _ in range(n): body else: orelse] (the loop variable is never read) *)
+| SBreak
+| SContinue
 with xhandlers :=
 | HNil
 | HCons (ks : list xclass) (h : xstmt) (rest : xhandlers).
 
 Definition xenv := nat -> option xval.
 Definition xset (env : xenv) (x : nat) (v : xval) : xenv := fun y => if Nat.eqb y x then Some v else env y.
-Inductive xst := StN | StRet (truthy : bool) | StExc (e : xexc).
+Inductive xst := StN | StRet (truthy : bool) | StExc (e : xexc) | StBrk | StCont.
 
-Definition ev (env : xenv) (e : xexpr) : option xval := match e with EC v => Some v | EV x => env x end.
+Fixpoint ev (env : xenv) (e : xexpr) : option xval :=
+  match e with
+  | EC v => Some v
+  | EV x => env x
+  | ENameOf e' => match ev env e' with Some VTemp => Some VTName | _ => None end
+  end.
 (** None / True / False are singletons: identity with them is decided; identity of two other objects is not. *)
 Definition singleton (v : xval) : bool := match v with VNone | VTrue | VFalse => true | _ => false end.
 Definition xval_eqb (a b : xval) : bool :=
@@ -95,8 +111,11 @@ Fixpoint evt (env : xenv) (t : xtest) : option bool :=
 Definition catches (k : xclass) (e : xexc) : bool :=
   match k, e with
   | KAll, _ => true
+  | KExc, _ => true
   | KOSError, (XOSErr | XNoEntErr) => true
   | KNoEnt, XNoEntErr => true
+  | KFault, XOSErr => true
+  | KExcNoFault, (XNoEntErr | XOther) => true
   | _, _ => false
   end.
 
@@ -129,11 +148,25 @@ Fixpoint exec (s : xstmt) (cur : option xexc) (env : xenv) (k : xenv -> xst -> x
         | StN =>
             exec orelse cur env1 (fun env2 st2 =>
               exec fin (incur st2) env2 (fun env3 st3 => k env3 (match st3 with StN => st2 | _ => st3 end)))
-        | StRet _ =>
+        | _ =>         (* return / break / continue leave the try: the finally clause runs, then they go on *)
             exec fin cur env1 (fun env3 st3 => k env3 (match st3 with StN => st1 | _ => st3 end))
         end)
   | SReturn t => k env (StRet t)
   | SRaise bare => k env (StExc (if bare then match cur with Some e => e | None => XOther end else XOther))
+  | SFor n body orelse =>
+      (* at most [n] rounds; [break] leaves the loop and skips the else clause, which runs when the rounds are used up *)
+      (fix loop (m : nat) (env0 : xenv) {struct m} : xtree :=
+         match m with
+         | O => exec orelse cur env0 k
+         | S m' => exec body cur env0 (fun env1 st =>
+                     match st with
+                     | StN | StCont => loop m' env1
+                     | StBrk => k env1 StN
+                     | _ => k env1 st
+                     end)
+         end) n env
+  | SBreak => k env StBrk
+  | SContinue => k env StCont
   end
 with exec_h (hs : xhandlers) (e : xexc) (env : xenv) (k : xenv -> xst -> xtree) {struct hs} : xtree :=
   match hs with
@@ -151,7 +184,12 @@ Definition env0 (exc : bool) : xenv := fun x =>
   end.
 (** [__exit__] falls off its end or returns a falsy value: the body's exception (if any) propagates. *)
 Definition kfin (exc : bool) : xenv -> xst -> xtree := fun _ st =>
-  XDone (match st with StN => exc | StRet t => exc && negb t | StExc _ => true end).
+  match st with
+  | StN => XDone exc
+  | StRet t => XDone (exc && negb t)
+  | StExc _ => XDone true
+  | StBrk | StCont => XBad              (* a break / continue outside a loop is not Python *)
+  end.
 Definition exit_tree (prog : xstmt) (exc : bool) : xtree := exec prog None (env0 exc) (kfin exc).
 
 (** [__exit__] without a preceding [__enter__] (self.temp and self._temp_name are still None): nothing may touch the
